@@ -215,16 +215,7 @@ theorem closePc1_inv (s : State) (p : Nat) (hi : Inv s) : Inv (closePc1 s p) := 
         exact hi.key q q' qc qc' hq hq' ho ho' hk
       · exact hi.lis
 
-theorem closePc_inv (s : State) (p : Nat) (hi : Inv s) : Inv (closePc s p) := by
-  unfold closePc
-  split
-  · exact hi
-  · split
-    · exact hi
-    · dsimp only
-      split
-      · exact closePc1_inv _ _ (closePc1_inv _ _ hi)
-      · exact closePc1_inv _ _ hi
+theorem closePc_inv (s : State) (p : Nat) (hi : Inv s) : Inv (closePc s p) := closePc1_inv s p hi
 
 theorem foldl_inv {α β : Type} (P : β → Prop) (f : β → α → β) (l : List α) (b : β)
     (h0 : P b) (hs : ∀ b a, P b → P (f b a)) : P (l.foldl f b) := by
